@@ -11,6 +11,7 @@ import (
 
 	clienttypes "github.com/teleport-network/teleport/x/xibc/core/client/types"
 	commitmenttypes "github.com/teleport-network/teleport/x/xibc/core/commitment/types"
+	"github.com/teleport-network/teleport/x/xibc/core/host"
 	"github.com/teleport-network/teleport/x/xibc/exported"
 	rt "github.com/teleport-network/teleport/zzverifrt"
 )
@@ -213,29 +214,50 @@ func VerifC07Update() {
 	}
 }
 
-// VerifC07Proof: a proof is honoured only against a stored height not above the latest and only after the delay.
-func VerifC07Proof() {
+// VerifC07Proof: a proof is honoured only against a stored height not above the latest and only after the delay, and what
+// is proved is membership of exactly the given value under exactly the commitment (resp. acknowledgement) path of
+// (src, dst, seq) below the client's prefix, against the root stored for the proof height.
+func VerifC07Proof() { c07Proof() }
+
+func c07Proof() {
 	w := newTMWorld(2)
 	h := freshHeight("proofHeight")
 	verified := 0
-	var usedRoot []byte
-	rt.Override("(github.com/teleport-network/teleport/x/xibc/core/commitment/types.MerkleProof).VerifyMembership", func(p commitmenttypes.MerkleProof, specs []*specT, root []byte, path commitmenttypes.MerklePath, value []byte) error {
+	var usedRoot, usedValue []byte
+	var usedPath commitmenttypes.MerklePath
+	rt.Override("(github.com/teleport-network/teleport/x/xibc/core/commitment/types.MerkleProof).VerifyMembership", func(p commitmenttypes.MerkleProof, specs []*specT, root []byte, path exported.Path, value []byte) error {
 		verified++
-		usedRoot = root
+		usedRoot, usedValue = root, value
+		usedPath, _ = path.(commitmenttypes.MerklePath)
 		if rt.Bool("membership-holds") {
 			return nil
 		}
 		return tmErr{"membership proof failed"}
 	})
-	err := w.cs.VerifyPacketCommitment(w.ctx, w.store, rt.Codec(), h, rt.Bytes("proof"), rt.Str("src"), rt.Str("dst"), rt.U64("seq"), rt.Bytes("commitment"))
+	src, dst, seq, value := rt.Str("src"), rt.Str("dst"), rt.U64("seq"), rt.Bytes("value")
+	isAck := rt.Bool("acknowledgement")
+	var err error
+	var wantPath string
+	if isAck {
+		err = w.cs.VerifyPacketAcknowledgement(w.ctx, w.store, rt.Codec(), h, rt.Bytes("proof"), src, dst, seq, value)
+		wantPath = host.PacketAcknowledgementPath(src, dst, seq)
+	} else {
+		err = w.cs.VerifyPacketCommitment(w.ctx, w.store, rt.Codec(), h, rt.Bytes("proof"), src, dst, seq, value)
+		wantPath = host.PacketCommitmentPath(src, dst, seq)
+	}
 	if err != nil {
 		return
+	}
+	if isAck {
+		rt.Reach("acknowledgement-accepted")
 	}
 	rt.Reach("accepted")
 	s := w.find(h)
 	rt.Assert("T4-height-not-above-latest", !w.cs.LatestHeight.LT(h))
 	rt.Assert("T4-consensus-state-stored-at-proof-height", s != nil)
 	rt.Assert("T4-membership-checked-once", verified == 1)
+	rt.Assert("T4-membership-of-exactly-this-path", len(usedPath.KeyPath) == 2 && usedPath.KeyPath[0] == string(w.cs.GetPrefix().Bytes()) && usedPath.KeyPath[1] == wantPath)
+	rt.Assert("T4-membership-of-exactly-this-value", rt.BytesEq(usedValue, value))
 	if s != nil {
 		rt.Assert("T4-root-of-that-height", rt.BytesEq(usedRoot, s.cs.Root))
 		now := uint64(w.ctx.BlockTime().UnixNano())
